@@ -831,13 +831,20 @@ def _prog_path(ops, lens):
     pushes = [SBytes.sym(f"p{i}", n) if n else b"" for i, n in enumerate(lens)]
     cmds = list(pushes) + list(ops)
     s = sc.Script(list(cmds))
+    wit = lambda env: {"program": [(_conc_el(env, c).hex() if not isinstance(c, int) else c) for c in cmds]}  # noqa
     try:
         ok = bool(s.evaluate(_EvalTx(), 0))
     except Exception:
         ok = False
     eok = bool(spec_eval(cmds))
-    check(ok == eok, "program result differs from consensus",
-          witness=lambda env: {"program": [(_conc_el(env, c).hex() if not isinstance(c, int) else c) for c in cmds]})
+    check(ok == eok, "program result differs from consensus", witness=wit)
+    # history: evaluating must not consume or alter the Script object; a second evaluation gives the same verdict
+    try:
+        ok2 = bool(s.evaluate(_EvalTx(), 0))
+    except Exception:
+        ok2 = False
+    check(ok2 == eok, "a second evaluation of the same Script object gives a different verdict", witness=lambda env: dict(wit(env), twice=True))
+    check(len(s.commands) == len(cmds), "evaluate() altered the Script object's command list", witness=lambda env: dict(wit(env), twice=True))
     return (ok, eok)
 
 
@@ -860,11 +867,20 @@ def ob_programs(nops, seed_count):
 def replay_program(w):
     from buidl import script
     cmds = [c if isinstance(c, int) else bytes.fromhex(c) for c in w["program"]]
+    sobj = script.Script(list(cmds))
     try:
-        ok = bool(script.Script(list(cmds)).evaluate(_EvalTx(), 0))
+        ok = bool(sobj.evaluate(_EvalTx(), 0))
     except Exception as e:
         ok = False
     eok = bool(spec_eval(cmds))
+    if w.get("twice"):
+        try:
+            ok2 = bool(sobj.evaluate(_EvalTx(), 0))
+        except Exception:
+            ok2 = False
+        return {"violated": ok2 != eok or len(sobj.commands) != len(cmds),
+                "observed": f"program {w['program']}: first evaluation {ok}, second evaluation of the same object {ok2}, consensus {eok}; "
+                            f"commands left {len(sobj.commands)} of {len(cmds)}"}
     return {"violated": ok != eok, "observed": f"program {w['program']}: impl {ok}, consensus {eok}"}
 
 
